@@ -32,7 +32,8 @@ RULE = ("one run = a history of proposals (distinct priorities, 1-6 actors, repl
 QUICK_RUNS = 6000
 THOROUGH_RUNS = 400_000
 EXPECT_PROBES = ["conflict_free_step", "conflicting_step_skipped", "higher_priority_bounds_bind", "pref_inside_exclusion_zone",
-                 "tie_between_exclusion_edges", "null_proposal_checked", "report_contract_checked", "actor_variant"]
+                 "tie_between_exclusion_edges", "null_proposal_checked", "report_contract_checked", "actor_variant",
+                 "two_actors_share_a_priority"]
 
 IDS = frozenset({8, 18})
 
@@ -91,8 +92,17 @@ def check_live_set(sim: Sim, m: Any, live: list[dict[str, Any]], sb: dict[str, A
         sim.violation("matches_reference", {"what": "target differs from the priority-sweep reference"},
                       f"step {step}: target {got} W, reference accepts {sorted(ref['accept'])}; bounds {sb}; live "
                       f"(highest priority first) {[pm.pstr(p) for p in by_prio]}")
-    # ---- (b) report contract for one drawn actor
-    x_actor = by_prio[ch.draw("contract_actor", len(by_prio))]
+    # ---- (b) report contract for one drawn actor (not for one that shares its priority with another actor: whether
+    # the peer counts as "higher" for it is a tie-break the statement leaves open; for everybody below, both count)
+    nprio: dict[int, int] = {}
+    for p in live:
+        nprio[p["prio"]] = nprio.get(p["prio"], 0) + 1
+    uniq = [p for p in by_prio if nprio[p["prio"]] == 1]
+    if len(uniq) < len(by_prio):
+        sim.probe("two_actors_share_a_priority")
+    if not uniq:
+        return
+    x_actor = uniq[ch.draw("contract_actor", len(uniq))]
     prio = x_actor["prio"]
     rep = _status(m, prio, sb, sim)
     a_ref = ref["A"][prio]
@@ -157,11 +167,17 @@ def scenario_object(sim: Sim) -> None:
     ch = sim.ch
     n = ch.int_between("nactors", 1, 6)
     prios = ch.shuffle("prios", [1, 2, 3, 5, 8, 13])[:n]
+    shared: set[str] = set()
+    if n >= 3 and ch.chance("shared_priority", 0.25):
+        # two different actors with the same priority; they only set bounds (whose preference would win is a tie-break
+        # the statement leaves open), every lower-priority actor is bound by both
+        prios[1] = prios[0]
+        shared = {"a0", "a1"}
     actors = [{"name": f"a{i}", "prio": prios[i]} for i in range(n)]
     m = Matryoshka(max_proposal_age=timedelta(seconds=pm.MAX_AGE_S))
     sb = pm.gen_sysbounds(ch, allow_none=False)
     now = 100.0
-    live: dict[int, dict[str, Any]] = {}
+    live: dict[str, dict[str, Any]] = {}
     for step in range(ch.int_between("nops", 6, sim.scale(30, 70))):
         op = ch.weighted("op", [7, 1, 1, 2])
         if op == 0:
@@ -173,7 +189,9 @@ def scenario_object(sim: Sim) -> None:
                 p["upper"] = None if p["upper"] is None else min(p["upper"], sb["hi"]) if p["upper"] >= sb["lo"] else sb["hi"]
                 if p["lower"] is not None and p["upper"] is not None and p["lower"] > p["upper"]:
                     p["lower"], p["upper"] = p["upper"], p["lower"]
-            live[a["prio"]] = p
+            if a["name"] in shared:
+                p["pref"] = None
+            live[a["name"]] = p
             sim.ev("propose", a["name"], p["pref"], p["lower"], p["upper"])
             sim.note(f"propose {pm.pstr(p)}")
             m.calculate_target_power(IDS, pm.mk_proposal(p, IDS), pm.mk_sysbounds(sb, sim.wall()))
